@@ -142,7 +142,7 @@ def classify_mismatch(rec, verdict, mm):
     return None
 
 
-def run_semantic(res, sources, opts=None, count=30, extra_case=None, label="programs"):
+def run_semantic(res, sources, opts=None, count=30, extra_case=None, label="programs", classify_extra=None):
     """sources: list of program texts (or (text, opts)). Fills `res` (common.Result); returns per-case info."""
     recs = compile_many(sources, opts)
     cases = []
@@ -220,7 +220,7 @@ def run_semantic(res, sources, opts=None, count=30, extra_case=None, label="prog
             continue
         unexplained = []
         for mm in mms:
-            cl = classify_mismatch(c, v, mm)
+            cl = classify_mismatch(c, v, mm) or (classify_extra(c, v, mm) if classify_extra else None)
             if cl:
                 res.known(cl[0], cl[1], example={"source": c["source"], "mismatch": mm})
                 stats["finding:" + cl[0]] += 1
